@@ -430,6 +430,10 @@ class KexGroupExchange(KexDH):
         if p < 7 or g < 1:
             raise KexDHException("Invalid modulus (%d) or generator (%d) received during GEX init." % (p, g))
 
+        # The time our own exponentiation takes grows with the cube of the modulus size, and the connection timeout does not cover it.  No implementation hands out more than 8192 bits; refuse anything beyond twice that.
+        if p.bit_length() > 16384:
+            raise KexDHException("Refusing the %d-bit modulus received during GEX init." % p.bit_length())
+
         # Now that we got the generator and modulus, perform the DH exchange
         # like usual.
         super(KexGroupExchange, self).set_params(g, p)
